@@ -8,14 +8,16 @@ def _c09_nontrivial(req, out):
 
 CFG = {
     "level": "proof",
-    "level_text": "Lean 4 theorems over models of the JSON string-body writers and the chunked escape scanner: scanner_eq for "
-                  "the SSE2 and AVX2 tiers (first index >= start holding quote, backslash or a byte < 0x20, else len; every "
-                  "length / start / chunk alignment) via the generic chunked-scan lemma of Proof/Chunked (movemask != 0 => "
-                  "offset + ctz mask) and the lane lemma decided over all 256 bytes; escaped_iff_required per character for the "
-                  "jq, jq-ascii and yq-ascii conventions. PARTIAL: round trip proved for ASCII characters only "
-                  "(roundtrip_partial); non-ASCII \\uXXXX/surrogate arithmetic, the lift to whole strings, the byte-level yq "
-                  "span-copy writer and yq_writer_slices_on_char_boundaries are not proved - they are cross-checked against the "
-                  "RFC 8259 body decoder on every correspondence request (all 1.1M scalar values in the thorough tier).",
+    "level_text": "Lean 4 theorems over models of the four JSON string-body writers and the chunked escape scanner, for every "
+                  "string of Unicode scalar values: each body decodes back to the string under the RFC 8259 section 7 decoder "
+                  "(roundtrip_jq, roundtrip_jq_ascii, roundtrip_yq_ascii, roundtrip_yq - incl. \\uXXXX and surrogate pairs); a "
+                  "character is escaped exactly when its convention requires it (escaped_iff_required_jq / _jq_ascii / _yq / "
+                  "_yq_ascii; ascii_writers_emit_ascii); the conventions differ exactly at U+0008, U+000C, U+007F "
+                  "(conventions_differ_exactly_at); the byte-level span-copy writer write_json_body_yq equals the per-character "
+                  "yq convention (yq_writer_eq) and its scanner hits lie on character boundaries "
+                  "(yq_writer_slices_on_char_boundaries); scanner_eq for the scalar, SSE2 and AVX2 tiers (first index >= start "
+                  "holding quote, backslash or a byte < 0x20, else len; every length / start / chunk alignment) via the generic "
+                  "chunked-scan lemma of Proof/Chunked and the lane lemma decided over all 256 bytes.",
     "level_note": "Trusts Lean kernel, the hand-written lane semantics of cmpeq/subs_epu8/movemask/trailing_zeros, the model of "
                   "String/char iteration as lists of scalar values, and the differential harness (all tiers via hooks).",
     "technique": "Lean 4 proof (decide over bytes, omega over hex/surrogate arithmetic) + differential correspondence of all four "
@@ -23,9 +25,14 @@ CFG = {
     "variants": [{"features": []}],
     "lean_modules": ["SuccinctlyVerif.Props.C09"],
     "lean_files": ["SuccinctlyVerif/Props/C09.lean", "SuccinctlyVerif/Proof/Chunked.lean", "SuccinctlyVerif/Proof/Escape.lean",
+                   "SuccinctlyVerif/Proof/EscapeRoundTrip.lean", "SuccinctlyVerif/Proof/EscapeYq.lean",
                    "SuccinctlyVerif/Model/Escape.lean"],
     "generated": [],
-    "required_theorems": ["SV.Props.C09.scanner_eq_sse2", "SV.Props.C09.scanner_eq_avx2", "SV.Props.C09.escaped_iff_required_jq"],
+    "required_theorems": ["SV.Props.C09.scanner_eq_scalar", "SV.Props.C09.scanner_eq_sse2", "SV.Props.C09.scanner_eq_avx2",
+                          "SV.Props.C09.escaped_iff_required_jq", "SV.Props.C09.escaped_iff_required_yq",
+                          "SV.Props.C09.conventions_differ_exactly_at", "SV.Props.C09.yq_writer_eq",
+                          "SV.Props.C09.yq_writer_slices_on_char_boundaries", "SV.Props.C09.roundtrip_jq",
+                          "SV.Props.C09.roundtrip_jq_ascii", "SV.Props.C09.roundtrip_yq_ascii", "SV.Props.C09.roundtrip_yq"],
     "allow_bv_decide": False,
     "nontrivial": _c09_nontrivial,
     "rule": "distinct request lines with a non-empty string / byte argument",
